@@ -11,6 +11,7 @@
 //   end
 //
 //   op   = <kind>[:<prims>] | stop | destroy | curq | cura | curc (the current:: API from a thread that is no worker)
+//          kind fn may be spelled fn[V][L][T]: function returning void / large closure / the function throws (run()'s catch branch)
 //          kind det may be spelled detL / detF / detG: large (heap) closure / small closure in a caller-side cocls::function / large one that way
 //   kind = co  (detached coroutine doing `co_await pool`)          fn  (`pool.run(fn)` -> future)
 //          det (`pool.run_detached(fn)`)                           rh  (`pool.resume(suspend_point)` of a parked coroutine)
@@ -60,12 +61,17 @@ struct JobRec {
     int ran = 0, cancelled = 0, value = 0;
     int ran_on = -1;
     std::unique_ptr<future<int>> fut;   // fn / ra: the returned future; aw: the awaited future
+    std::unique_ptr<future<void>> futv; // fn spelled with V: run(fn) of a function returning void
     std::coroutine_handle<> h;          // rh: the parked coroutine
     struct Watch : awaiter {
         Scn *sc = nullptr;
         int j = 0;
         static suspend_point<void> fire(awaiter *me, void *) noexcept;
     } watch;
+};
+
+struct job_exc : std::exception {   // what a throwing function given to run(fn) throws
+    const char *what() const noexcept override { return "job_exc"; }
 };
 
 struct grab {
@@ -97,14 +103,27 @@ struct Scn {
         // 'r': the cancelled party reacts by asking the pool what happened (one more critical section on the pool mutex)
         if (pool && jobs[j].prims.find('r') != std::string::npos) (void)pool->is_stopped();
     }
-    void on_future(int j) {
+    // "value" | "exc" | "broken" | "other" for a ready future
+    std::string fut_outcome(JobRec &jb) {
         try {
-            jobs[j].fut->value();
-            jobs[j].value++;
-            log("value j" + std::to_string(j) + " " + tid());
+            if (jb.futv) jb.futv->value(); else jb.fut->value();
+            return "value";
         } catch (const await_canceled_exception &) {
-            on_cancel(j);
+            return "broken";
+        } catch (const job_exc &) {
+            return "exc";
         } catch (...) {
+            return "other";
+        }
+    }
+    void on_future(int j) {
+        std::string o = fut_outcome(jobs[j]);
+        if (o == "value" || o == "exc") {
+            jobs[j].value++;
+            log(o + " j" + std::to_string(j) + " " + tid());
+        } else if (o == "broken") {
+            on_cancel(j);
+        } else {
             log("other j" + std::to_string(j) + " " + tid());
         }
     }
@@ -113,7 +132,8 @@ struct Scn {
         w.sc = this;
         w.j = j;
         w.set_resume_fn(&JobRec::Watch::fire);
-        if (!jobs[j].fut->subscribe(&w)) on_future(j);
+        bool waiting = jobs[j].futv ? jobs[j].futv->subscribe(&w) : jobs[j].fut->subscribe(&w);
+        if (!waiting) on_future(j);
     }
 
     void do_stop() {
@@ -325,7 +345,8 @@ struct Scn {
     int submit(const std::string &kind_in, const std::string &prims) {
         // detL / detF / detG: run_detached with a closure that does not fit the small-object space of the pool's closure
         // container (heap) / a small closure handed over in a caller-side cocls::function / a large one handed over that way
-        std::string kind = kind_in.substr(0, 3) == "det" ? "det" : kind_in;
+        std::string kind = kind_in.substr(0, 3) == "det" ? "det" : kind_in.substr(0, 2) == "fn" ? "fn" : kind_in;
+        std::string fnflags = kind == "fn" ? kind_in.substr(2) : "";
         char variant = kind_in.size() > 3 && kind == "det" ? kind_in[3] : 'S';
         int j = (int)jobs.size();
         jobs.emplace_back();
@@ -336,11 +357,20 @@ struct Scn {
         if (kind == "co") {
             co_job(j).detach();
         } else if (kind == "fn") {
-            jobs[j].fut.reset(new future<int>(pool->run([this, j] {
+            // spellings: V = function returning void, L = large closure (heap in the pool's container), T = the function throws
+            bool is_void = fnflags.find('V') != npos, large = fnflags.find('L') != npos, throws = fnflags.find('T') != npos;
+            auto body = [this, j, throws] {
                 on_run(j);
                 do_prims(j);
-                return 100 + j;
-            })));
+                if (throws) {
+                    log("throw j" + std::to_string(j) + " " + tid());
+                    throw job_exc();
+                }
+            };
+            if (is_void && large) jobs[j].futv.reset(new future<void>(pool->run([body, pad = std::array<char, 100>()] { (void)pad; body(); })));
+            else if (is_void) jobs[j].futv.reset(new future<void>(pool->run([body] { body(); })));
+            else if (large) jobs[j].fut.reset(new future<int>(pool->run([body, j, pad = std::array<char, 100>()] { (void)pad; body(); return 100 + j; })));
+            else jobs[j].fut.reset(new future<int>(pool->run([body, j] { body(); return 100 + j; })));
             arm(j);
         } else if (kind == "det") {
             bool kill = prims.find('x') != std::string::npos;
@@ -406,13 +436,9 @@ struct Scn {
     void summary() {
         for (auto &jb : jobs) {
             std::string fs = "none";
-            if (jb.fut && jb.kind != "aw") {
-                if (!jb.fut->ready()) fs = "pending";
-                else {
-                    try { jb.fut->value(); fs = "value"; }
-                    catch (const await_canceled_exception &) { fs = "broken"; }
-                    catch (...) { fs = "other"; }
-                }
+            if ((jb.fut || jb.futv) && jb.kind != "aw") {
+                bool ready = jb.futv ? jb.futv->ready() : jb.fut->ready();
+                fs = ready ? fut_outcome(jb) : "pending";
             }
             log("job j" + std::to_string(jb.id) + " " + jb.kind + " ran=" + std::to_string(jb.ran) + " cancelled=" + std::to_string(jb.cancelled) +
                 " value=" + std::to_string(jb.value) + " on=" + (jb.ran_on < 0 ? std::string("-") : "t" + std::to_string(jb.ran_on)) + " fut=" + fs);
